@@ -269,7 +269,7 @@ Definition tcp_new (rx_storage tx_storage : list Z) (cc : controller) (ts : bool
         (Some tcp_ACK_DELAY_DEFAULT) ADIdle 0 true cc ts 0).
 
 (* reset() leaves timeout, keep_alive, hop_limit, remote_has_sack, local_rx_last_seq/ack,
-   local_rx_dup_acks, pending_fast_retransmit, ack_delay, nagle, the congestion controller,
+   local_rx_dup_acks, ack_delay, nagle, the congestion controller,
    the timestamp generator and last_remote_tsval untouched, like the source *)
 Definition tcp_reset (s : socket) : socket :=
   let s := upd_state s Closed in
@@ -293,7 +293,8 @@ Definition tcp_reset (s : socket) : socket :=
   let s := upd_remote_last_ts s None in
   let s := upd_ack_delay_timer s ADIdle in
   let s := upd_challenge_ack_timer s 0 in
-  upd_syn_unacked_in_fin_wait s false.
+  let s := upd_syn_unacked_in_fin_wait s false in
+  upd_pending_fast_retransmit s false.
 
 Definition tcp_set_timeout (s : socket) (d : option Z) : socket := upd_timeout s d.
 Definition tcp_set_ack_delay (s : socket) (d : option Z) : socket := upd_ack_delay s d.
@@ -1030,7 +1031,8 @@ Definition tcp_dispatch_timers (cx : ctx) (s : socket) : outcome (socket * Z) :=
       | TRetransmit _ =>
           let s := upd_congestion_controller s (cc_on_rto (s_congestion_controller s) in_flight) in
           let s := upd_remote_last_seq s (s_local_seq_no s) in
-          (upd_rtte s (rtte_on_rto (s_rtte s)), 202)
+          let s := upd_rtte s (rtte_on_rto (s_rtte s)) in
+          (upd_pending_fast_retransmit s false, 202)
       | _ =>
           let s := upd_congestion_controller s (cc_on_loss (s_congestion_controller s) in_flight) in
           (upd_pending_fast_retransmit s true, 203)
